@@ -249,7 +249,7 @@ def _verdict_all(args):
     return out
 
 
-def sweep_all(root='/repo', jobs=16):
+def sweep_all(root='/repo', jobs=16, keep_sources=False):
     from .cli import PROPERTIES
     sources = read_sources(root)
     base = _verdict_all((sources, root, PROPERTIES))
@@ -268,7 +268,7 @@ def sweep_all(root='/repo', jobs=16):
                 by.append(pid)
             elif e:
                 by.append(pid + '!')
-        rows.append((module, path, desc, by))
+        rows.append((module, path, desc, by) + ((_s,) if keep_sources else ()))
     return rows
 
 
